@@ -43,6 +43,9 @@ type Case struct {
 	sigClause string
 	// beSeen: (matrix, spectrum) pairs whose backward errors were evaluated.
 	beSeen map[uint64]bool
+	// svChecks / svCache: reference SVDs spent on similarity invariants.
+	svChecks int
+	svCache  map[uint64][]float64
 }
 
 func (h *H) newCase(id string, rng *vrt.Rand) *Case {
